@@ -87,6 +87,10 @@ func (s *dvSim) newFace(a, b int) {
 	s.events = append(s.events, fmt.Sprintf("r%d: face towards r%d re-created as %d", a, b, s.face(a, b)))
 }
 
+// dvNestedNames makes router 1's name an extension of router 0's name (/net/r0 and /net/r0/r1):
+// router names are arbitrary names under the network prefix, nothing says they are siblings.
+var dvNestedNames bool
+
 func dvFace(a, b int) uint64 { return uint64(100 + 10*a + b) } // face at a towards b
 
 func newDvSim(c *h.Ctx, n int) *dvSim {
@@ -96,6 +100,9 @@ func newDvSim(c *h.Ctx, n int) *dvSim {
 		cfg := dvconfig.DefaultConfig()
 		cfg.Network = "/net"
 		cfg.Router = fmt.Sprintf("/net/r%d", i)
+		if dvNestedNames && i == 1 {
+			cfg.Router = "/net/r0/r1" // a router whose name lies under another router's name
+		}
 		tm := simeng.NewTimer()
 		eng := simeng.NewEngine(tm)
 		r, err := dv.NewRouter(cfg, eng)
@@ -190,7 +197,7 @@ func (s *dvSim) onExpress(from *dvNode, x simeng.Expressed) {
 	}
 	var owner *dvNode
 	for _, nd := range s.nodes {
-		if nd.name.IsPrefix(name) {
+		if nd.name.IsPrefix(name) && (owner == nil || len(nd.name) > len(owner.name)) {
 			owner = nd
 		}
 	}
